@@ -687,6 +687,15 @@ pub fn judge_tcp_lines(lines: &[String], chunk_seed: u32) -> Result<(), String> 
             if got.windows(12).any(|w| w == b"ioport:b:5c:") {
                 break;
             }
+            // The listener on this port is this case's emulator (it bound the port), and a peer it did not accept is
+            // reset when the listener goes away - so `sync:` messages arriving on this very stream prove that the
+            // connection leads to this case's running emulator. If it runs on for 60 sync periods (120 million
+            // states; the guest polls the flag every few instructions) without acting on the line, it is deaf:
+            // that is a verdict, not a rig failure.
+            let syncs = got.windows(5).filter(|w| w == b"sync:").count();
+            if syncs >= 60 {
+                return Err(format!("the emulator accepted the control connection and runs ({} sync messages received) but never acted on the first line sent (`u8:{:x}:5c`, echoed by the guest as `ioport:b:5c:`)", syncs, FLAG));
+            }
             if t0.elapsed() > Duration::from_secs(20) {
                 // not our emulator (or not an emulator at all): leave the thread behind, it ends with the process
                 return Err(format!("{}no echo of the handshake within 20 s: the connection on port {} does not lead to this case's emulator", INFRA, port));
